@@ -100,6 +100,8 @@ def seq_append(seq, v, st):
 
 
 def seq_elem(seq, term):
+    if callable(seq.elem) and not isinstance(seq.elem, api.T):
+        return seq.elem(term)           # a view (e.g. the items of a dict: key -> (key, value))
     if isinstance(seq.elem, api.ObjT):
         return read(seq.elem, seq.elem.cls, "", term)
     if isinstance(seq.elem, api.TupT):
